@@ -3,6 +3,7 @@ package main
 import (
 	"fmt"
 	"go/ast"
+	"go/constant"
 	"go/token"
 	"go/types"
 	"sort"
@@ -19,45 +20,110 @@ func ruleComparisonErrors(c *Ctx) {
 		"AddComparison rejects incomparable operands with an error; dropping it makes the WHERE term vanish and the statement return rows that do not satisfy it", false)
 }
 
-// R19.3 — the scan-level LIMIT push-down is guarded by "no predicates and no functions".
+// R19.3 — the scan-level LIMIT push-down happens only when the statement has NO predicates (and
+// no functions): the post-filter that runs after the scan can only remove rows, so a row limit
+// applied to the scan while a predicate is still to be evaluated cuts rows before the filter and
+// the statement returns fewer than LIMIT matching rows although more exist. The guard must
+// therefore establish len(StaticPredicates) == 0 on the push-down edge; a guard closure is
+// accepted when it cannot return anything but `true` except behind that fact.
 func rulePushdownGuarded(c *Ctx) {
 	const rule = "R19.3"
+	const fld = "sqlparser.SelectRelation.StaticPredicates"
 	s := c.S(rule, "(*sqlparser.SelectRelation).Materialize")
 	if s == nil {
 		return
 	}
-	// local closures whose body consults StaticPredicates
-	guards := map[types.Object]bool{}
-	walkAll(s.Body, func(n ast.Node) bool {
-		if as, ok := n.(*ast.AssignStmt); ok && len(as.Lhs) == 1 && len(as.Rhs) == 1 {
-			if lit, ok := unparen(as.Rhs[0]).(*ast.FuncLit); ok && mentionsField(s.Info, lit.Body, "sqlparser.SelectRelation.StaticPredicates") {
-				if o := identObj(s.Info, as.Lhs[0]); o != nil {
-					guards[o] = true
+	// fact "len(X.StaticPredicates) == 0"
+	lenZero := func(info *types.Info, f []Fact) bool {
+		for _, x := range f {
+			if x.Tag != nil {
+				continue
+			}
+			b, ok := isCompare(x.Expr, token.EQL, token.NEQ, token.GTR, token.LEQ)
+			if !ok {
+				continue
+			}
+			l, k := b.X, b.Y
+			op := b.Op
+			if _, isC := constInt(info, k); !isC {
+				l, k = b.Y, b.X
+				switch op { // mirror
+				case token.GTR:
+					op = token.LSS
+				case token.LEQ:
+					op = token.GEQ
 				}
 			}
+			kv, isC := constInt(info, k)
+			call, isCall := unparen(l).(*ast.CallExpr)
+			if !isC || kv != 0 || !isCall || len(call.Args) != 1 {
+				continue
+			}
+			if id, ok := unparen(call.Fun).(*ast.Ident); !ok || id.Name != "len" || fieldKey(info, call.Args[0]) != fld {
+				continue
+			}
+			// len == 0 true | len != 0 false | len > 0 false | len <= 0 true
+			zeroWhenTrue := op == token.EQL || op == token.LEQ
+			if x.Val == zeroWhenTrue {
+				return true
+			}
+		}
+		return false
+	}
+	// local guard closures: every path to a result other than the constant `true` passes the
+	// len == 0 fact
+	guards := map[types.Object]bool{}
+	s.walk(func(n ast.Node) bool {
+		as, ok := n.(*ast.AssignStmt)
+		if !ok || len(as.Lhs) != 1 || len(as.Rhs) != 1 {
+			return true
+		}
+		lit, ok := unparen(as.Rhs[0]).(*ast.FuncLit)
+		if !ok || !mentionsField(s.Info, lit.Body, fld) {
+			return true
+		}
+		o := identObj(s.Info, as.Lhs[0])
+		if o == nil || lit.Type.Results == nil || len(lit.Type.Results.List) != 1 {
+			return true
+		}
+		ls := c.P.ScopeOfLit(s.Fn, lit)
+		r := ls.Run(Query{
+			Target: func(sub, top ast.Node) bool {
+				rs, ok := sub.(*ast.ReturnStmt)
+				if !ok || len(rs.Results) != 1 {
+					return ok
+				}
+				tv := s.Info.Types[rs.Results[0]]
+				return !(tv.Value != nil && tv.Value.Kind() == constant.Bool && constant.BoolVal(tv.Value))
+			},
+			Exempt: func(f []Fact) bool { return lenZero(s.Info, f) },
+		})
+		if len(r.Hits) == 0 && r.TargetSites > 0 {
+			guards[o] = true
+			c.Hold(rule, s.Name, "guard-closure-false-implies-no-predicates", c.P.Pos(lit.Pos()), "the guard closure answers `false` only behind len(StaticPredicates) == 0")
+		} else if r.TargetSites > 0 {
+			c.Note("R19.3: closure at %s consults StaticPredicates but can answer false while predicates exist (%d paths); it is not accepted as a push-down guard", c.P.Pos(lit.Pos()), len(r.Hits))
 		}
 		return true
 	})
+
 	guarded := func(f []Fact) bool {
+		if lenZero(s.Info, f) {
+			return true
+		}
 		for _, x := range f {
-			if mentionsField(s.Info, x.Expr, "sqlparser.SelectRelation.StaticPredicates") {
-				return true
+			if x.Tag != nil || x.Val {
+				continue
 			}
-			found := false
-			walkAll(x.Expr, func(m ast.Node) bool {
-				if cx, ok := m.(*ast.CallExpr); ok && guards[identObj(s.Info, cx.Fun)] {
-					found = true
-				}
-				return !found
-			})
-			if found {
+			if cx, ok := unparen(x.Expr).(*ast.CallExpr); ok && guards[identObj(s.Info, cx.Fun)] {
 				return true
 			}
 		}
 		return false
 	}
 	c.onlyThroughEdge(rule, s, "scan-limit-only-without-predicates", callPred(s, "(*planner.Query).SetRowLimit"), guarded, 1,
-		"the scan-level row limit is set only behind a test of the statement's predicates/functions", "LIMIT is pushed down to the scan unconditionally: rows are cut before the WHERE filter runs")
+		"the scan-level row limit is set only on the edge where the statement has no predicates (the post-filter cannot remove rows after the cut)",
+		"LIMIT is pushed down to the scan on a path where predicates may still be evaluated after it: rows are cut before the WHERE filter runs, so fewer than LIMIT matching rows are returned although more exist")
 }
 
 // R19.4 — BETWEEN maps to one lower and one upper comparison.
@@ -133,7 +199,7 @@ func ruleRelationalOrder(c *Ctx) {
 	const r3 = "R20.3"
 	if is := c.S(r3, "(*sqlparser.InsertIntoStatement).Materialize"); is != nil {
 		var sel types.Object
-		walkAll(is.Body, func(n ast.Node) bool {
+		is.walk(func(n ast.Node) bool {
 			if as, ok := n.(*ast.AssignStmt); ok && len(as.Rhs) == 1 && len(as.Lhs) == 2 {
 				if cx, ok := unparen(as.Rhs[0]).(*ast.CallExpr); ok && CalleeName(is.Info, cx) == "(*sqlparser.SelectRelation).Materialize" {
 					sel = identObj(is.Info, as.Lhs[0])
@@ -141,6 +207,7 @@ func ruleRelationalOrder(c *Ctx) {
 			}
 			return true
 		})
+
 		okSrc := false
 		for _, n := range is.sites(callPred(is, "(utils/io.ColumnSeriesMap).AddColumnSeries")) {
 			cx := n.(*ast.CallExpr)
@@ -173,7 +240,7 @@ func ruleAggRegistry(c *Ctx) {
 		}
 	}
 	n := 0
-	walkAll(s.Body, func(m ast.Node) bool {
+	s.walk(func(m ast.Node) bool {
 		kvx, ok := m.(*ast.KeyValueExpr)
 		if !ok {
 			return true
@@ -189,7 +256,7 @@ func ruleAggRegistry(c *Ctx) {
 		n++
 		impl := aggI != nil && types.Implements(t, aggI)
 		c.Check(impl, rule, s.Name, "registered:"+name, c.P.Pos(kvx.Pos()), "aggregate `"+name+"` is registered with a type implementing uda.AggInterface ("+typeShort(t)+")")
-		// New must hand out a fresh accumulator, not the registered prototype
+
 		base := t
 		if pt, ok := t.(*types.Pointer); ok {
 			base = pt.Elem()
@@ -223,9 +290,11 @@ func ruleAggRegistry(c *Ctx) {
 			}
 			return true
 		})
+
 		c.Check(fresh, rule, newFn.Key, "fresh-accumulator", c.P.Pos(newFn.Decl.Pos()), "New returns a fresh accumulator (not the shared registered prototype: state would leak between queries)")
 		return true
 	})
+
 	c.Floor(rule, s.Name, "registered aggregates", n, 6)
 }
 
@@ -238,7 +307,7 @@ func ruleEmptyInputHandled(c *Ctx) {
 		}
 		// columns converted from the input
 		conv := map[types.Object]bool{}
-		walkAll(s.Body, func(n ast.Node) bool {
+		s.walk(func(n ast.Node) bool {
 			if as, ok := n.(*ast.AssignStmt); ok && len(as.Rhs) == 1 && len(as.Lhs) >= 1 {
 				if cx, ok := unparen(as.Rhs[0]).(*ast.CallExpr); ok && strings.HasPrefix(CalleeName(s.Info, cx), "uda.ColumnToFloat") {
 					if o := identObj(s.Info, as.Lhs[0]); o != nil {
@@ -248,6 +317,7 @@ func ruleEmptyInputHandled(c *Ctx) {
 			}
 			return true
 		})
+
 		first := func(sub, top ast.Node) bool {
 			ix, ok := sub.(*ast.IndexExpr)
 			if !ok || !conv[identObj(s.Info, ix.X)] {
